@@ -413,10 +413,12 @@ func init() {
 		Build: func(seed uint64, tier string) *RunConfig {
 			r := cfgRng(seed)
 			ctl := sampleCtl(r)
-			rc := &RunConfig{Property: "C06", Profile: "order", Seed: seed, Ctl: ctl, MapOrder: true, Lagfree: true}
+			// (a static world: the constraints whose recorded trigger needs an update of an existing object are lifted)
+			lift := []string{"no_dup_paths", "no_new_default_backend", "ingress_hosts_fixed"}
+			rc := &RunConfig{Property: "C06", Profile: "order", Seed: seed, Ctl: ctl, MapOrder: true, Lagfree: true, IgnoreAvoid: lift}
 			// dense worlds: few hosts and paths, many ingresses, so that declarations collide
 			rc.World, rc.Ops = GenerateRun(seed, GenOptions{Sparse: r.IntN(4) == 0, NoOps: true, MaxIngresses: pickInt(r, 5, 7, 9), KeysPerRun: pickInt(r, 4, 7, 10),
-				AnnChance: 2, ExcludeIngressKeys: []string{"waf", "cert-signer"}, NoForeignClass: r.IntN(2) == 0})
+				AnnChance: 2, ExcludeIngressKeys: []string{"waf", "cert-signer"}, NoForeignClass: r.IntN(2) == 0, IgnoreAvoid: lift})
 			return rc
 		}})
 	// the same after a short lag-free history: objects that were updated, deleted and re-created
